@@ -331,9 +331,9 @@ def run_case(case: dict) -> core.CaseResult:
                     check_pos(store, exp, res, where)
                 if res.violations:
                     return res
-        res.counters['final_canon'] = 0
-        res.sample = None
-        res.outcomes[str(len(exp))] += 0
+        if case['ops']:
+            res.sample = {'lf': case['lf'], 'init': ''.join(case['init']), 'ops': case['ops'],
+                          'final': ''.join(cls_of(t) for t in exp)}
         res._final = (canon(store), exp, store)  # type: ignore[attr-defined]
     finally:
         set_load_factor(None)
@@ -399,8 +399,8 @@ def _expand(args: tuple) -> tuple:
         h1 = core.h64(c1)
         r.states = {h1}
         if h1 != h0:
-            r.nontrivial = {core.h64((h0, h1))}
-        r.outcomes[core.h64(c1[0] if isinstance(c1, tuple) and c1 and c1[0] != 'flat' else c1) % 1000003] += 0
+            r.nontrivial = {h1}
+        r.outcomes[''.join(cls_of(t) for t in r._final[1])] += 1  # type: ignore[attr-defined]
         shard.add(case, r)
         succ.append((h1, op))
     return succ, shard
